@@ -3,8 +3,10 @@
      Circuit.inverse(v, h)                                                        linear_circuit.py
      PERM.break_in_2_mode_perms, decompose_perms                                  unitary_components.py, comp_utils.py
      experiment._flatten (with max_depth), non_unitary_circuit regrouping         experiment.py
-   Every model that has a known defect takes "fix" flags: all flags false = the code as it is,
-   all flags true = the repaired code (the positive theorems are stated for both). *)
+   Models of code that was repaired in /repo take flags: all flags TRUE = the code as it is NOW
+   (BS.inverse after db5cda2f, _flatten after 47d2b926); all flags FALSE = the HISTORICAL code before those
+   repairs (kept so that the refuting witnesses of the old code still compile).  The named configurations
+   [*_now] / [*_old] at the end of this file are what the driver and the theorems use. *)
 From PV Require Export Model.Circuit Model.Components.
 
 Section Transform.
@@ -38,12 +40,12 @@ Definition leafm (l : leaf) : mat :=
   | LPERM p => perm_mat p
   end.
 
-(* BS.inverse(v, h).  The code: [theta] and the phases are read once at entry;
-   v: each phase is re-assigned to itself; Ry: theta := -theta; H: theta := 2 pi - theta (half angle pi - theta/2)
-   h: every phase is negated; Rx, Ry: theta := -(theta read at entry); H: theta untouched.
-   fix flags: fv = v exchanges top and bottom phases (tl<->bl, tr<->br);
-              fh = h exchanges left and right phases (tl<->tr, bl<->br) besides negating them;
-              ft = h negates the current theta (after v), not the one read at entry. *)
+(* BS.inverse(v, h), all phases defined (numeric).
+   now (flags true):  v: tl<->bl, tr<->br; Ry: theta := -theta; H: theta := 2 pi - theta (half angle pi - theta/2)
+                      h: tl := -tr, tr := -tl, bl := -br, br := -bl; Rx, Ry: theta := -(current theta); H: untouched.
+   historical (flags false): fv = false: v re-assigned every phase to itself;
+                      fh = false: h negated the four phases in place;
+                      ft = false: h negated the theta read at entry (before the v step). *)
 Definition bs_inverse (fv fh ft : bool) (cv : convention) (v h : bool) (c s tl bl tr br : R) : leaf :=
   let '(tl1, bl1, tr1, br1) := if v && fv then (bl, tl, br, tr) else (tl, bl, tr, br) in
   let '(c1, s1) := if v then match cv with Rx => (c, s) | Ry => (c, - s) | Hc => (- c, s) end else (c, s) in
@@ -132,7 +134,7 @@ Definition decompose_perms (fc : fcirc) : fcirc :=
 Definition dgo (d : option nat) : bool := match d with None => true | Some k => (0 <? k)%nat end.
 Definition ddec (d : option nat) : option nat := match d with None => None | Some k => Some (k - 1)%nat end.
 (* one entry (o, t) of a composite whose own starting mode is [start].
-   fx = false: the recursion passes starting_mode = m_range[0] (the code); fx = true: start + m_range[0]. *)
+   fx = true: the recursion passes starting_mode + m_range[0] (the code now); fx = false: m_range[0] (historical). *)
 Fixpoint flat1 (fx : bool) (start : nat) (d : option nat) (o : nat) (t : tcomp) : list (nat * tcomp) :=
   match t with
   | TLeaf _ => [((o + start)%nat, t)]
@@ -157,6 +159,13 @@ Definition run_max (run : list (nat * tcomp)) : nat := fold_left (fun a ot => Na
 Definition submat (a : nat) (A : mat) : mat := fun i j => A (a + i)%nat (a + j)%nat.
 Definition regroup_run (M : nat) (run : list (nat * tcomp)) : nat * nat * mat :=
   let a := run_min M run in let b := run_max run in (a, (b - a)%nat, submat a (ematx M run)).
+(* named configurations *)
+Definition circuit_inverse_now := circuit_inverse true true true.
+Definition circuit_inverse_old := circuit_inverse false false false.
+Definition bs_inverse_now := bs_inverse true true true.
+Definition bs_inverse_old := bs_inverse false false false.
+Definition exp_flatten_now := exp_flatten true.
+Definition exp_flatten_old := exp_flatten false.
 End Transform.
 
 Arguments vflip {_}. Arguments jmat {_}. Arguments expected {_}.
@@ -168,3 +177,5 @@ Arguments fmats {_}. Arguments fmat {_}. Arguments fmatx {_}. Arguments tflatten
 Arguments swap_leaf {_}. Arguments break_in_2 {_}. Arguments decompose_perms {_}.
 Arguments flat1 {_}. Arguments exp_flatten {_}. Arguments emats {_}. Arguments emat {_}. Arguments ematx {_}.
 Arguments run_min {_}. Arguments run_max {_}. Arguments submat {_}. Arguments regroup_run {_}.
+Arguments circuit_inverse_now {_}. Arguments circuit_inverse_old {_}. Arguments bs_inverse_now {_}. Arguments bs_inverse_old {_}.
+Arguments exp_flatten_now {_}. Arguments exp_flatten_old {_}.
